@@ -379,22 +379,57 @@ theorem l2_close_policy (s : Life2.St) (who : Life.Who) (u k i : Nat) :
     have : ¬ ¬ (who = .user u ∨ (who = .keeper ∧ act.state ≠ 0)) := fun h => h hp
     simp [this]
 
-/-- (b) **Escrow goes home**: closing empties the slot and credits the owner with every escrowed token of
-every kind — collateral and market tokens — exactly (whatever a successful execution left there: the minted
-market tokens of a deposit, the paid-out collateral of a withdrawal or swap, or the untouched escrow of a pending
-or cancelled action); nobody else's balance, no vault and no recorded balance moves. -/
+/-- (b) **Escrow goes home**: closing empties the slot; the INPUT side of the escrow (deposit collateral, withdrawal
+market tokens, swap input) is refunded to the OWNER and the OUTPUT side (minted market tokens, withdrawn collateral,
+swap output) is paid to the RECEIVER named at creation; nobody else's balance, no vault and no recorded balance
+moves. -/
 theorem l2_close_returns_escrow {s s' : Life2.St} {who : Life.Who} {u k i : Nat}
     (h : Life2.close s who u k i = some s') :
     ∃ act, s.acts u k i = some act ∧ s'.acts u k i = none ∧
-      s'.users u = ⟨(s.users u).long + act.escLong, (s.users u).short + act.escShort, (s.users u).mt + act.escMt⟩ ∧
-      (∀ v, v ≠ u → s'.users v = s.users v) ∧
+      s' = Life2.setAct (Life2.credit (Life2.credit s u (Life2.inSide k act)) act.receiver (Life2.outSide k act)) u k i none ∧
+      (∀ v, v ≠ u → v ≠ act.receiver → s'.users v = s.users v) ∧
       (∀ a b c, ¬ (a = u ∧ b = k ∧ c = i) → s'.acts a b c = s.acts a b c) ∧
       s'.vaultLong = s.vaultLong ∧ s'.vaultShort = s.vaultShort ∧ s'.recLong = s.recLong ∧ s'.recShort = s.recShort ∧
       Life2.supply s' = Life2.supply s := by
   obtain ⟨act, ha, _, rfl⟩ := close_some h
-  refine ⟨act, ha, by simp [acts_setAct], by simp [Life2.setAct, Life2.setUser], ?_, ?_, rfl, rfl, rfl, rfl, rfl⟩
-  · intro v hv; simp [Life2.setAct, Life2.setUser, hv]
-  · intro a b c hne; simp [acts_setAct, hne, Life2.setUser]
+  refine ⟨act, ha, by simp [acts_setAct], rfl, ?_, ?_, rfl, rfl, rfl, rfl, rfl⟩
+  · intro v hv hr; simp [Life2.setAct, Life2.credit, Life2.setUser, hv, hr]
+  · intro a b c hne; simp [acts_setAct, acts_credit, hne]
+
+/-- with a receiver different from the owner the two credits are separate: the owner gets exactly the refundable
+input side, the receiver exactly the proceeds. -/
+theorem l2_close_split {s s' : Life2.St} {who : Life.Who} {u k i : Nat} {act : Life2.Act}
+    (h : Life2.close s who u k i = some s') (ha : s.acts u k i = some act) (hne : act.receiver ≠ u) :
+    s'.users u = ⟨(s.users u).long + (Life2.inSide k act).1, (s.users u).short + (Life2.inSide k act).2.1,
+                  (s.users u).mt + (Life2.inSide k act).2.2⟩ ∧
+    s'.users act.receiver = ⟨(s.users act.receiver).long + (Life2.outSide k act).1,
+      (s.users act.receiver).short + (Life2.outSide k act).2.1, (s.users act.receiver).mt + (Life2.outSide k act).2.2⟩ := by
+  obtain ⟨act', ha', _, rfl⟩ := close_some h
+  rw [ha] at ha'; cases ha'
+  have hne' : u ≠ act.receiver := fun e => hne e.symm
+  constructor
+  · simp [Life2.setAct, Life2.credit, Life2.setUser, hne']
+  · simp [Life2.setAct, Life2.credit, Life2.setUser, hne]
+
+/-- **The receiver alone is a stranger**: a user who is not the owner of the slot can never close it — being the
+funds receiver gives no right (only the owner, or a keeper once the action is completed / cancelled). -/
+theorem l2_receiver_cannot_close (s : Life2.St) (u k i r : Nat) (hr : r ≠ u) :
+    Life2.close s (.user r) u k i = none := by
+  unfold Life2.close
+  cases ha : s.acts u k i with
+  | none => rfl
+  | some act =>
+    have h1 : ¬ (Life.Who.user r = Life.Who.user u) := by intro e; cases e; exact hr rfl
+    simp [h1]
+
+/-- **Refunds go to the owner, proceeds to the receiver — in every history.** In any state reachable from an empty
+market, an action that is NOT completed (pending or cancelled) holds no proceeds, so closing it pays everything back
+to the owner; a completed action holds no refundable input, so closing it pays everything to the receiver. -/
+theorem l2_who_receives_what (l sh : Nat) (now : Int) (ops : List Life2.Op) (u k i : Nat) (act : Life2.Act)
+    (ha : (Life2.run (Life2.init l sh now) ops).1.acts u k i = some act) :
+    (act.state ≠ 1 → Life2.outSide k act = (0, 0, 0)) ∧ (act.state = 1 → Life2.inSide k act = (0, 0, 0)) := by
+  have h := wf_run (wf_init l sh now) ops u k i act ha
+  exact ⟨h.2, h.1⟩
 
 /-- a cancelled (soft-failed) execution moves no token at all: escrow stays whole until close returns it. -/
 theorem l2_soft_failure {s s' : Life2.St} {who : Life.Who} {u k i fee x y : Nat} {throw fail : Bool} {paid : Nat}
@@ -455,8 +490,8 @@ theorem l2_exec_frame {s s' : Life2.St} {who : Life.Who} {u k i fee x y : Nat} {
 
 /-! non-vacuity: two users, a deposit, a withdrawal of part of the minted tokens, a swap, soft failure, closes -/
 private def l2demo : List Life2.Op :=
-  [.create 0 0 0 2000 300 false 500000, .price 0, .exec .keeper 0 0 0 300000 true false 600 0, .exec .keeper 0 0 0 1 false false 5 0,
-   .close .keeper 0 0 0, .create 0 1 0 100 0 false 0, .create 1 2 1 40 0 false 300000, .exec .keeper 0 1 0 7 true false 333 50,
+  [.create 0 0 0 2000 300 false 500000 0, .price 0, .exec .keeper 0 0 0 300000 true false 600 0, .exec .keeper 0 0 0 1 false false 5 0,
+   .close .keeper 0 0 0, .create 0 1 0 100 0 false 0 0, .create 1 2 1 40 0 false 300000 1, .exec .keeper 0 1 0 7 true false 333 50,
    .exec .keeper 1 2 1 9 false true 0 0, .close (.user 2) 1 2 1, .close .keeper 1 2 1, .close (.user 0) 0 1 0]
 example : (Life2.run (Life2.init 10000 5000 100) l2demo).2 =
     [.created 0 0 0, .none, .executed 0 0 0 .completed, .none, .closed 0 0 0, .created 0 1 0, .created 1 2 1,
@@ -464,6 +499,19 @@ example : (Life2.run (Life2.init 10000 5000 100) l2demo).2 =
 example : let s := (Life2.run (Life2.init 10000 5000 100) l2demo).1
     (s.users 0).long = 8333 ∧ (s.users 0).short = 4750 ∧ (s.users 0).mt = 500 ∧ (s.users 1).long = 10000 ∧
     s.vaultLong = 1667 ∧ s.recLong = 1667 ∧ Life2.supply s = 500 := by decide
+
+/-- receiver ≠ owner: user 0 deposits for receiver 2 (minted tokens go to 2, nothing to 0), user 2 withdraws for receiver 1
+(collateral goes to 1); the receiver cannot close; a cancelled action refunds the owner. -/
+private def l2demoR : List Life2.Op :=
+  [.create 0 0 0 2000 300 false 500000 2, .price 0, .close (.user 2) 0 0 0, .exec .keeper 0 0 0 0 true false 600 0, .close .keeper 0 0 0,
+   .create 2 1 0 100 0 false 0 1, .create 2 1 1 50 0 true 0 1, .exec .keeper 2 1 0 0 true false 333 50, .exec .keeper 2 1 1 0 false false 0 0,
+   .close (.user 1) 2 1 0, .close .keeper 2 1 0, .close .keeper 2 1 1]
+example : (Life2.run (Life2.init 10000 5000 100) l2demoR).2 =
+    [.created 0 0 0, .none, .none, .executed 0 0 0 .completed, .closed 0 0 0, .created 2 1 0, .created 2 1 1,
+     .executed 2 1 0 .completed, .executed 2 1 1 .cancelled, .none, .closed 2 1 0, .closed 2 1 1] := by decide
+example : let s := (Life2.run (Life2.init 10000 5000 100) l2demoR).1
+    (s.users 0).long = 8000 ∧ (s.users 0).mt = 0 ∧ (s.users 2).mt = 500 ∧ (s.users 2).long = 10000 ∧
+    (s.users 1).long = 10333 ∧ (s.users 1).short = 5050 ∧ (s.users 1).mt = 0 := by decide
 
 end Life2
 
